@@ -101,7 +101,7 @@ func ruleC04(c *Ctx, r *Report) {
 		} else if call, ok := allCopies(sts[0].Val); ok {
 			// the rule comes from globalTableRules
 			fromGlobal := false
-			for _, l := range phiLeaves(recvOf(&call.Call)) {
+			for _, l := range leavesThroughCalls(c, recvOf(&call.Call), 2) {
 				if rangeExtractOf(l, fGlobalRules, 2) {
 					fromGlobal = true
 				} else if !isNilConst(l) {
@@ -703,6 +703,17 @@ func ruleC04(c *Ctx, r *Report) {
 				}
 			}
 		})
+		if !found {
+			// path-sensitive form (the two rule kinds that rewrite the schema may share one branch, `global || mycat`,
+			// kept in a boolean, and the write may be hoisted behind the branch): from a global-true edge there is a
+			// feasible path — boolean phis are evaluated by the edge they are entered through — that executes
+			// GetDatabaseNameByTableIndex and then a WriteName whose argument, on that path, is its result
+			for _, e := range ge {
+				if schemaRewrittenOnPath(fn, e, func(cc *ssa.CallCommon) bool { return callsIfaceMethod(cc, mDB) }) {
+					found = true
+				}
+			}
+		}
 		if !okIdx {
 			r.viol(rule, name, "db:index-is-current", c.Pos(fn.Pos()), "GetDatabaseNameByTableIndex is asked about an index other than the result's current table index")
 		} else {
@@ -1057,20 +1068,7 @@ func ruleC01(c *Ctx, r *Report) {
 		return nil
 	}
 	// LT edges: `*op == LT` true
-	var ltEdges []CondEdge
-	allInstrs(fn, func(in ssa.Instruction) {
-		b, ok := in.(*ssa.BinOp)
-		if !ok || b.Op != token.EQL {
-			return
-		}
-		if k, ok := constInt(b.Y); ok && k == ltV {
-			for _, e := range condEdges(b) {
-				if e.Val {
-					ltEdges = append(ltEdges, e)
-				}
-			}
-		}
-	})
+	ltEdges := eqConstEdges(fn, func(v ssa.Value) bool { return true }, ltV)
 	nret := 0
 	for _, ret := range returnsOf(fn) {
 		isNil, known := returnsNilError(ret)
@@ -1603,4 +1601,122 @@ func ruleC02(c *Ctx, r *Report) {
 			r.viol(rule, name, "limit:not-pushed-with-group-by", c.Pos(hlimit.Pos()), "a LIMIT is sent to every shard even when the statement has GROUP BY: each shard returns its own first n groups, so a group that is not among the first n on any single shard is lost and the others are aggregated from part of the shards")
 		}
 	}
+}
+
+
+// schemaRewrittenOnPath: path-sensitive search from the edge e. Boolean (and other) phis take the value of the edge they
+// are entered through; an If on a value known that way follows only the matching branch. Succeeds when a path executes a
+// call satisfying isDB and later a WriteName call whose argument, resolved along the path, is result #0 of that call.
+func schemaRewrittenOnPath(fn *ssa.Function, e CondEdge, isDB func(cc *ssa.CallCommon) bool) bool {
+	type state struct {
+		b      *ssa.BasicBlock
+		pred   *ssa.BasicBlock
+		phis   map[*ssa.Phi]ssa.Value
+		passed map[ssa.Value]bool
+		depth  int
+	}
+	found := false
+	var walk func(st state)
+	visited := map[string]bool{}
+	walk = func(st state) {
+		if found || st.depth > 40 {
+			return
+		}
+		// evaluate phis of this block by the incoming edge
+		phis := map[*ssa.Phi]ssa.Value{}
+		for k, v := range st.phis {
+			phis[k] = v
+		}
+		if st.pred != nil {
+			for _, in := range st.b.Instrs {
+				phi, ok := in.(*ssa.Phi)
+				if !ok {
+					break
+				}
+				for i, p := range st.b.Preds {
+					if p == st.pred {
+						v := phi.Edges[i]
+						if pv, ok := stripValue(v).(*ssa.Phi); ok {
+							if r, ok := phis[pv]; ok {
+								v = r
+							}
+						}
+						phis[phi] = v
+					}
+				}
+			}
+		}
+		resolve := func(v ssa.Value) ssa.Value {
+			for i := 0; i < 8; i++ {
+				v = stripValue(resolveLoad(stripValue(v)))
+				phi, ok := v.(*ssa.Phi)
+				if !ok {
+					return v
+				}
+				r, ok := phis[phi]
+				if !ok {
+					return v
+				}
+				v = r
+			}
+			return v
+		}
+		key := fmt.Sprintf("%d|%d|%d", st.b.Index, len(st.passed), len(phis))
+		if visited[key] {
+			return
+		}
+		visited[key] = true
+		passed := map[ssa.Value]bool{}
+		for k := range st.passed {
+			passed[k] = true
+		}
+		for _, in := range st.b.Instrs {
+			cc := callCommon(in)
+			if cc == nil {
+				continue
+			}
+			if isDB(cc) {
+				if v, ok := in.(ssa.Value); ok {
+					passed[v] = true
+				}
+				continue
+			}
+			if f := staticCallee(cc); f != nil && f.Name() == "WriteName" && len(cc.Args) >= 2 {
+				a := resolve(cc.Args[1])
+				if ex, ok := a.(*ssa.Extract); ok && ex.Index == 0 && passed[ex.Tuple] {
+					found = true
+					return
+				}
+			}
+		}
+		last := st.b.Instrs[len(st.b.Instrs)-1]
+		if iff, ok := last.(*ssa.If); ok {
+			cond := iff.Cond
+			neg := false
+			for {
+				u, ok := cond.(*ssa.UnOp)
+				if !ok || u.Op != token.NOT {
+					break
+				}
+				cond, neg = u.X, !neg
+			}
+			if b, ok := constBool(resolve(cond)); ok {
+				if neg {
+					b = !b
+				}
+				idx := 1
+				if b {
+					idx = 0
+				}
+				walk(state{st.b.Succs[idx], st.b, phis, passed, st.depth + 1})
+				return
+			}
+		}
+		for _, s := range st.b.Succs {
+			walk(state{s, st.b, phis, passed, st.depth + 1})
+		}
+	}
+	start := e.If.Block().Succs[e.Succ]
+	walk(state{start, e.If.Block(), map[*ssa.Phi]ssa.Value{}, map[ssa.Value]bool{}, 0})
+	return found
 }
